@@ -103,6 +103,7 @@ type WorldRun struct {
 	EnvFilter  func(depth, env int) bool
 	MenuFilter func(w *worlds.World) func(depth int, prefix []int, item int) bool
 	Monitors   func(w *worlds.World) []explore.Monitor // overrides the check's monitors
+	OnTransition func(t *explore.Transition, newState bool) []explore.Violation
 }
 
 // replayPayload is what a replay file of the explorer engine contains.
@@ -140,9 +141,14 @@ func RunExplore(c *Ctx, runs []WorldRun, mons func(w *worlds.World) []explore.Mo
 		if r.MenuFilter != nil {
 			cfg.MenuFilter = r.MenuFilter(w)
 		}
+		cfg.OnTransition = r.OnTransition
 		st, vs := explore.Search(cfg)
 		for _, v := range vs {
-			c.Rep.Add(report.Item{Property: v.Property, Signature: v.Signature, Detail: fmt.Sprintf("world %s, history %s\n%s", v.World, v.Hist.String(), v.Detail), Engine: "explore",
+			engine := "explore"
+			if e, ok := v.Extra["engine"].(string); ok {
+				engine = e
+			}
+			c.Rep.Add(report.Item{Property: v.Property, Signature: v.Signature, Detail: fmt.Sprintf("world %s, history %s\n%s", v.World, v.Hist.String(), v.Detail), Engine: engine,
 				Replay: replayPayload{World: v.World, History: v.Hist, CheckFirst: r.CheckFirst}})
 		}
 		states += st.States
